@@ -56,6 +56,10 @@ pub struct NodeCfg {
     pub backend: Backend,
     pub rng_seed: u64,
     pub deny: Option<Prim>,
+    /// 0: every request for the denied primitive fails; k >= 1: only the k-th request does (the
+    /// builder asks for two DH and three cipher objects)
+    #[serde(default)]
+    pub deny_at: u8,
     /// byzantine peer: this node announces a static public key that is not a valid curve point
     /// (everything else it does follows the protocol)
     #[serde(default)]
